@@ -31,6 +31,15 @@ func openSess(c *hlib.Ctx, prop string) *sess {
 	if repo == "" {
 		repo = "/repo"
 	}
+	if os.Getenv("VERIF_DIODE_BLACKBOX_ONLY") != "" && c.Replay == "" {
+		// builders' switch: only the black-box scenarios (to try a timing-dependent scenario repeatedly without the
+		// schedule exploration).  The result is marked broken, so such a run can never count as a passed check.
+		c.Res.Broken = append(c.Res.Broken, "VERIF_DIODE_BLACKBOX_ONLY is set: the schedule exploration was skipped (schedule-level correspondence not established)")
+		blackBox(c, prop)
+		c.Res.Rule = "black-box scenarios only (VERIF_DIODE_BLACKBOX_ONLY)"
+		c.Finish()
+		os.Exit(0)
+	}
 	b, err := BuildRunner(repo)
 	if err != nil {
 		// a repository whose diode sources cannot be instrumented/built: the correspondence cannot be established
@@ -160,8 +169,26 @@ func (s *sess) explore(j *Job, o exploreOpt) (n int) {
 		s.coqNodes += root.size()
 		s.ship(j, root, map[string]interface{}{"label": o.label, "schedules": shipped})
 	}
+	if m.stuck >= stuckStop && s.c.Replay == "" {
+		// The stuck-state detector has its witnesses (executions of the instrumented code in which Close
+		// does not return or the fair completion does not terminate; never the case on code that meets
+		// the property, and not a known finding).  Every further exhaustive job on such code runs each
+		// schedule into the step cap or into the job timeout (minutes of all cores per job) only to
+		// repeat the report: stop the exploration here, run the black-box scenarios, and say so.
+		fmt.Fprintf(os.Stderr, "diodeh: exploration stopped after job %d: %d executions reported by the stuck-state detector\n", j.ID, m.stuck)
+		s.b.Cleanup()
+		s.c.Res.Broken = append(s.c.Res.Broken, fmt.Sprintf("the schedule exploration was stopped after job %d (%s): the stuck-state detector reported %d of its executions (Close does not return / no termination); the remaining jobs were not run (schedule-level correspondence not established beyond this job)", j.ID, cfg, m.stuck))
+		s.exhaustive = false
+		blackBox(s.c, s.prop)
+		s.finish(ruleCommon + "; INCOMPLETE: the exploration was stopped at the first job with stuck executions; the black-box scenarios were run")
+		s.c.Finish()
+		os.Exit(0)
+	}
 	return nn
 }
+
+// stuckStop: number of stuck executions within one job after which the exploration is not continued
+const stuckStop = 3
 
 // schedKey: a 64-bit FNV-1a hash of (job, schedule) as the distinctness key (keeps memory bounded)
 func schedKey(j *Job, r *Res) string {
